@@ -194,6 +194,10 @@ def e2e_dist(rs):
             d["requests"] += 1
             d["http2_requests" if q[1] == "2" else "http1_requests"] += 1
             d["upgrades"] = d.get("upgrades", 0) + (q[3] == "W")
+            d["caller_supplied_host"] = d.get("caller_supplied_host", 0) + q[3].endswith("h")
+            d["root_path"] = d.get("root_path", 0) + (q[4] == "root")
+            d["no_path"] = d.get("no_path", 0) + (q[4] == "nopath")
+            d["root_or_no_path_with_query"] = d.get("root_or_no_path_with_query", 0) + (q[4] in ("root", "nopath") and q[5] != "0")
             d["with_request_body"] += q[6] != "0"
             d["request_body_streamed_unknown_length"] += q[6] != "0" and q[8] == "0"
             d["large_body_over_8k"] += int(q[6]) > 8192 or int(q[10]) > 8192
@@ -357,17 +361,21 @@ def pool_dist(rs):
 POOL_STREAM = {"name": "pool", "quick": 6000, "thorough": 300000, "sep": ";", "batch": 4000, "keep": ["mark"],
                "nontrivial": pool_nontrivial, "distribution": pool_dist}
 POOLT_STREAM = {"name": "poolt", "quick": 40, "thorough": 1500, "sep": ";", "batch": 4000, "keep": ["mark"],
+                "exhaustive": "poolt-exhaustive", "exhaustive_always": True,
                 "nontrivial": pool_nontrivial, "distribution": pool_dist}
 POOL_RULE = ("random schedules (6-34 ops + drain/probe phase) of issue / poll / cancel / dial ok|ok+ALPN-h2|fail-connect|fail-handshake / "
-             "finish / connection-ready / connection-close / run-tasks / real-time tick over 1-3 origins (differing in scheme, port, "
+             "(ok-but-not-shareable also for an HTTP/2 request) / response arrives / connection-ready / connection-close / run-tasks / real-time tick over 1-3 origins (differing in scheme, port, "
              "host, letter case), HTTP/1.1 and HTTP/2 mixed, max_idle in {0,1,2,3,32}, both continue_after_preemption settings, idle "
-             "timeout none/0/50ms/long, through the public ConnectionPoolService with scripted Transport/Protocol/Connection; after "
+             "timeout none/0/sub-millisecond/50ms/long, through the public ConnectionPoolService over hyperdriver's own RequestExecutor with scripted "
+             "Transport/Protocol/Connection (response arrival and readiness scripted independently; timed cases include released "
+             "connections that stay busy past the idle timeout); after "
              "every op the result, the pool snapshot (marker set, waiter queues, idle lists), dial and drop counters are compared with "
              "the model and the monitors run. non-trivial = >=2 requests and at least one release or cancel before the drain phase")
 POOL_ASSUMES = ["tokio oneshot semantics (5-state model) and FIFO task scheduling of the current-thread runtime",
                 "one op = one poll/drop executed atomically (every PoolInner access is under its mutex)",
                 "hyper's is_ready/poll_ready abstracted as open && !busy; an upgraded connection is one that never becomes ready again",
-                "idle expiry uses the real clock: timed cases use 50 ms timeouts with 5/150 ms sleeps (guard band)"]
+                "idle expiry uses the real clock: timed cases use 50 ms (or sub-millisecond) timeouts with 5/150 ms sleeps (guard band); every run "
+                "includes the grid of idle lists of 1-3 connections (k oldest expired x any subset closed by the peer, 80 cases)"]
 
 def pool_prop(mod, prefixes, theorems, timed=False):
     return {"props_module": mod, "class_prefix": prefixes, "theorems": theorems,
@@ -421,10 +429,12 @@ def srvk_dist(rs):
 SRVK_STREAM = {"name": "srvk", "quick": 60, "thorough": 3000, "sep": ";", "batch": 4000, "exhaustive": "srvk-exhaustive",
                "exhaustive_always": True, "nontrivial": lambda r: len(r["input"].split()) > 5, "distribution": srvk_dist}
 SRVK_RULE = (" | srvk: the real Server (HTTP/1 or auto) on kernel and TLS acceptors - TcpListener, UnixListener, TCP+TLS, duplex+TLS "
-             "(real rustls, harness/certs) - in real time: 1-5 misbehaving clients (RST with SO_LINGER 0, immediate close, garbage, "
+             "(real rustls, harness/certs), and an acceptor of the caller's own (public Accept trait: an in-memory listen queue whose "
+             "connections are readable the moment they are accepted), bare and under with_tls - in real time: 1-5 misbehaving clients (RST with SO_LINGER 0, immediate close, garbage, "
              "partial head, partial TLS record, stalled), each either before the server future is first polled (sitting in the "
              "listen backlog) or after, then a well-behaved probe (a real TLS client on the TLS acceptors); every run includes the "
-             "grid protocol x acceptor x fault x {before, after} (96 cases)")
+             "grid protocol x acceptor x fault x {before, after} (144 cases). An input on which the implementation does not come back "
+             "within the harness watchdog limit (60 s per input; a spinning task never lets the paused runtime go idle) is a violation with that input as replay")
 SRV_RULE = ("op sequences (connect, connect-then-give-up, complete / partial / rest-of / garbage request, partial HTTP/2 preface, "
             "handler release, client disconnect, shutdown signal, listener loss) for up to 4 raw clients against the real Server "
             "(HTTP/1 or auto-detecting; without graceful shutdown, with it and the future awaited by value, with it and the completed "
@@ -451,7 +461,7 @@ PROPS = {
     "C02": pool_prop("HdModel.Props.C02", ["C02/"], ["Hd.Pool.C02_one_holder", "Hd.Pool.C02_held_out_of_pool", "Hd.Pool.C02_pooled_once",
         "Hd.Pool.C02_available_means_ready", "Hd.Pool.C02_busy_not_available", "Hd.Pool.C02_handout_ready",
         "Hd.Pool.step_lininv", "Hd.Pool.run_lininv", "Hd.Pool.step_ready", "Hd.Pool.run_ready", "Hd.Pool.C02_single_delivery", "Hd.Pool.C02_delivered_not_idle",
-        "Hd.Pool.C02_handback_only_when_ready", "Hd.Pool.C02_pop_not_busy", "Hd.Pool.C02_exec_marks_busy"]),
+        "Hd.Pool.C02_handback_only_when_ready", "Hd.Pool.C02_pop_not_busy", "Hd.Pool.C02_exec_marks_busy"], timed=True),
     "C03": pool_prop("HdModel.Props.C03", ["C03/"], ["Hd.Pool.C03_waiter_only_while_attempt_in_flight", "Hd.Pool.C03_waiter_poll",
         "Hd.Pool.step_waiters", "Hd.Pool.run_waiters", "Hd.Pool.C03_cancel_releases", "Hd.Pool.C03_owner_drop_cancels",
         "Hd.Pool.C03_released_waiter_resolves", "Hd.Pool.C03_released_dialer_continues", "Hd.Pool.C03_resolves_when_attempt_done"]),
@@ -502,7 +512,9 @@ PROPS = {
                 "the response, virtual time: per request a unique id in path, header and body pattern, HTTP/1.1 or HTTP/2, one of six "
                 "origins (two hosts; no port, :8080, the other scheme's default port, explicit default port, ws/wss scheme - so that pool "
                 "keys differing only in port or scheme occur together), GET/POST/PUT/DELETE/HEAD and protocol upgrades (101, then pattern "
-                "bytes both ways on the upgraded stream through the TokioIo bridge; HTTP/1.1-only origins), path and query filler, request body 0-70 KB in "
+                "bytes both ways on the upgraded stream through the TokioIo bridge; HTTP/1.1-only origins), path and query filler, 1 in 5 "
+                "requests for the root path or a URI with no path at all (mostly with a query), 1 in 6 with a Host header of the caller's own (it must "
+                "reach the server on an HTTP/1 connection), request body 0-70 KB in "
                 "chunks of 1 B - 100 KB with or without a declared length (every third request pauses between chunks), handler delay "
                 "0-100 ms, response status from a 7-entry table, response headers, response body 0-70 KB streamed in chunks, start time "
                 "in 1-3 rounds 500 ms apart (later rounds find pooled connections), 1 in 5 requests dropped by the caller 0-120 ms after "
